@@ -17,9 +17,10 @@ CANARY = os.environ.get("VERIF_CANARY", "")
 PART = int(os.environ.get("VERIF_PART", "0"))
 KNOWN = ["transport=rest", "transport=grpc+rest", "rest-numeric-enums", "metadata", "python-gapic-name=thing",
          "python-gapic-namespace=a.b", "autogen-snippets=false", "warehouse-package-name=wh", "add-iam-methods",
-         "python-gapic-name=other"]
+         "python-gapic-name=other", "autogen-snippets"]
 UNKNOWN = ["bogus", "bogus=1", "python-gapic-zzz=3", "go-gapic-package=x", "name=leak", " spaced-unknown = 1",
-           "python-gapic-templates-x=1", "transports=rest"]
+           "python-gapic-templates-x=1", "transports=rest", "java-opt=false"]
+BARE = {"rest-numeric-enums", "metadata", "add-iam-methods", "autogen-snippets"}
 
 
 def untraced():
@@ -46,10 +47,10 @@ def _build(s):
 
 def unknown_ignored(k0: int, k1: int, u0: int, u1: int, order: int) -> bool:
     """
-    pre: -1 <= k0 <= 9 and -1 <= k1 <= 2 and -1 <= u0 <= 7 and -1 <= u1 <= 1 and order == PART
+    pre: -1 <= k0 <= 10 and -1 <= k1 <= 2 and -1 <= u0 <= 8 and -1 <= u1 <= 1 and order == PART
     post: _
     """
-    k0, k1, u0, u1, order = conc(k0, -1, 9), conc(k1, -1, 2), conc(u0, -1, 7), conc(u1, -1, 1), conc(order, 0, 2)
+    k0, k1, u0, u1, order = conc(k0, -1, 10), conc(k1, -1, 2), conc(u0, -1, 8), conc(u1, -1, 1), conc(order, 0, 2)
     with untraced():
         known = [KNOWN[i] for i in (k0, k1) if i >= 0]
         unknown = [UNKNOWN[i] for i in (u0, u1) if i >= 0]
@@ -62,6 +63,10 @@ def unknown_ignored(k0: int, k1: int, u0: int, u1: int, order: int) -> bool:
         a = _build(",".join(toks))
         b = _build(",".join(known))
         if a != b:
+            return False
+        # a flag given without a value means flag=true wherever it stands in the string (no value leaks from a neighbour)
+        c = _build(",".join(t + "=true" if t in BARE else t for t in toks))
+        if a != c:
             return False
         # documented defaults
         if not known and (a.transport != ["grpc"] or a.name != "" or a.namespace != ()):
